@@ -37,6 +37,8 @@ var oddSnippets = []string{
 	"type MyS16 string\ntype MyB16 []byte\ntype MyF16 float64\nfunc c16(s string, b []byte, ms MyS16, mb MyB16, f float64, mf MyF16, i int, u uint8, p *int, pp **int) { _ = string(b) == s; _ = []byte(s); _ = MyS16(b); _ = string(mb) == string(ms); _ = len(string(b)) == 0; _ = f+1 > mf2(mf); _ = 0o7 + 07 + 0x7 + 0b1 + 1_0; _ = i/1000 + i*1000; _ = u<<1 | u>>7; _ = *p + **pp; _ = &*p; _ = (*p); _ = -(-i); _ = !(!(i == 0)); _ = !(i != 0 && i != 1); _ = i >= 010 && i < 011 }\nfunc mf2(m MyF16) float64 { return float64(m) }",
 	// select, channels, goroutines, defers in loops
 	"func ch17(a, b chan int, done <-chan struct{}) { for { select { case v := <-a: _ = v; case b <- 1: case <-done: return; default: } }; }\nfunc d17(fs []func()) { for _, f := range fs { defer f(); defer func() { f() }(); go func() { f() }() }; for i := 0; i < 3; i++ { func() { defer println(i) }() } }",
+	// same-named function-local types of very different sizes, ranged by value / as arrays / passed to closures
+	"func lt21a(k int) int {\n\ttype rec struct{ a [200]int }\n\txs := make([]rec, 2)\n\tvar arr [4]rec\n\tn := 0\n\tfor _, x := range xs {\n\t\tn += x.a[0]\n\t}\n\tfor _, x := range arr {\n\t\tn += x.a[0]\n\t}\n\treturn n + k\n}\n\nfunc lt21b(k int) int {\n\ttype rec struct{ a [1]int }\n\txs := make([]rec, 2)\n\tvar arr [4]rec\n\tn := 0\n\tfor _, x := range xs {\n\t\tn += x.a[0]\n\t}\n\tfor _, x := range arr {\n\t\tn += x.a[0]\n\t}\n\treturn n + k\n}\n\ntype rec21 [1024]int\n\nfunc lt21c(p rec21) int {\n\ttype rec21 [2]int\n\tvar q rec21\n\tfor _, v := range [3]rec21{} {\n\t\tq = v\n\t}\n\treturn q[0] + p[0]\n}",
 	// imports with aliases, dot and blank
 	"",
 	// struct tags, embedded fields, anonymous structs
